@@ -249,6 +249,7 @@ static Plan gen_table(const std::string &prop, const std::string &tier, uint64_t
 		p.seti("chk_roundtrip", 1);
 		p.seti("chk_stats", 1);
 		if (r.chance(1, 4)) { p.seti("initexist", 1 + r.below(3)); p.seti("initexist_how", r.chance(1, 3) ? 0 : 1 + r.below(5)); }	// 1 empty file, 2 junk, 3 valid table; reached directly, through links, or a directory
+		if (r.chance(1, 4)) p.seti("reinit", 1 + r.below(3));	// a second mtbl_writer_init on the path of the writer that is still open: 1 at once, 2 half-way, 3 before destroy
 	} else if (prop == "C11") {
 		gen_writer_cfg(p, r, false, false, true);
 		p.set("producer", "ref");
@@ -267,7 +268,7 @@ static Plan gen_table(const std::string &prop, const std::string &tier, uint64_t
 		gen_queries(p, r, (int)r.below(20));
 		gen_iter_history(p, r, (int)r.below(60));
 		// the > 4 GiB restart-array branch: a hand-built sparse block now and then; once per thorough batch the real block_builder
-		if (r.chance(1, thorough ? 400 : 1500)) p.op("huge64", { "sparse", std::to_string(r.below(100000)) });
+		if (r.chance(1, thorough ? 300 : 500)) p.op("huge64", { "sparse", std::to_string(r.below(100000)) });
 		if (thorough && run == 11) p.op("huge64", { "builder", std::to_string(r.below(100000)) });
 	}
 	return p;
@@ -365,6 +366,21 @@ bool tablelib_write(const Plan &p, RunResult &res, const std::string &path, Tabl
 
 	Bytes last; bool any = false;
 	size_t opi = 0, refused = 0;
+	// C08: the path a writer is working on exists from mtbl_writer_init on, so a second mtbl_writer_init on it
+	// (the same name, or - when the name is used as given - a hard-to-spot other spelling) must be refused
+	int reinit = check_gate && !(prefix || p.geti("initfd", 0)) ? (int)p.geti("reinit", 0) : 0;
+	auto try_reinit = [&]() {
+		std::string name = path;
+		size_t sl = path.rfind('/');
+		if (sl != std::string::npos && (p.geti("prefseed", 0) & 1)) name = path.substr(0, sl) + "/./" + path.substr(sl + 1);
+		mtbl_writer *w2 = mtbl_writer_init(name.c_str(), nullptr);
+		res.probes["init-on-the-path-of-an-open-writer"]++;
+		if (w2 != nullptr) {
+			res.fail("MODEL", "INIT-WHILE-OPEN", "a second mtbl_writer_init on the path of a writer that is still open succeeded (after " + std::to_string(opi) + " adds)");
+			mtbl_writer_destroy(&w2);
+		}
+	};
+	if (reinit == 1) try_reinit();
 	if (check_gate && p.geti("feed", 0) == 1) {
 		// the writer is fed by mtbl_source_write() from a user-defined source that yields the plan's adds in plan order
 		// (sorted or not): the gate must act on every entry exactly as for direct adds, i.e. the copy stops at the
@@ -392,6 +408,7 @@ bool tablelib_write(const Plan &p, RunResult &res, const std::string &path, Tabl
 		mtbl_res r = mtbl_writer_add(w, (const uint8_t *)k.data(), k.size(), (const uint8_t *)v.data(), v.size());
 		bool expect = !any || mfmt::cmp(k, last) > 0;
 		res.ev.u(r == mtbl_res_success);
+		if (reinit == 2 && opi == adds.size() / 2) try_reinit();
 		if (check_gate && (r == mtbl_res_success) != expect)
 			res.fail("MODEL", expect ? "GATE-refused" : "GATE-accepted",
 				 "add #" + std::to_string(opi) + " key " + short_repr(k) + (expect ? " refused although greater than" : " accepted although not greater than") + " the last accepted key " + short_repr(last));
@@ -400,6 +417,7 @@ bool tablelib_write(const Plan &p, RunResult &res, const std::string &path, Tabl
 		opi++;
 	}
 	if (refused) res.probes["add-refused"] += refused;
+	if (reinit == 3 || (reinit == 2 && p.geti("feed", 0) == 1)) try_reinit();
 	mtbl_writer_destroy(&w);
 	if (sched) {
 		mtbl_threadpool_destroy(&tp);
